@@ -133,3 +133,16 @@ Definition chk_parse (c : parse_case) : bool :=
   | PCClass ch sp nu de =>
       Bool.eqb (py_isspace ch) sp && Bool.eqb (py_isnumeric_char ch) nu && opt_eqb Z.eqb (dec_value ch) de
   end.
+
+(* ---- handler interleavings (C19) ---- *)
+From Wh Require Import Conc.
+Record conc_case := mkConc {
+  cc_size : nat; cc_cur : nat; cc_queued : option nat; cc_pa : program; cc_pb : program;
+  cc_order : list nat;            (* the order in which the real threads entered their critical sections *)
+  cc_final_cur : nat; cc_final_next : option nat;
+}.
+(* a generator (identified by its stage) fits iff its stage is non-zero and at most the tower size *)
+Definition chk_conc (c : conc_case) : bool :=
+  let fits := fun g => negb (g =? 0) && (g <=? cc_size c) in
+  let s := run_seq fits (mkC (cc_cur c) (cc_queued c) None) [cc_pa c; cc_pb c] (cc_order c) in
+  cstate_eqb s (mkC (cc_final_cur c) (cc_final_next c) None).
